@@ -80,10 +80,20 @@ type stats struct {
 	queries        int
 	unknownBranch  int
 	maxAlloc       int
+	specOK, specFail int
 }
 
 func (s *stats) addQuery()         { s.mu.Lock(); s.queries++; s.mu.Unlock() }
 func (s *stats) addUnknownBranch() { s.mu.Lock(); s.unknownBranch++; s.mu.Unlock() }
+func (s *stats) addSpec(ok bool) {
+	s.mu.Lock()
+	if ok {
+		s.specOK++
+	} else {
+		s.specFail++
+	}
+	s.mu.Unlock()
+}
 func (s *stats) setMaxAlloc(n int) {
 	s.mu.Lock()
 	if n > s.maxAlloc {
@@ -578,6 +588,9 @@ func (p *Program) runPath(fn *ssa.Function, prefix []uint64, sv *Solver, unwind 
 	e := p.newExec(sv, unwind)
 	e.prefix = prefix
 	e.entryName = entry
+	if sv.Dead {
+		sv.Revive()
+	}
 	sv.Send("(push 1)\n")
 	defer func() {
 		r := recover()
